@@ -318,6 +318,7 @@ pub fn run_fq2(a: &Args, out: &mut Out) {
             }
             _ => y,
         };
+        let y = if rng.gen_range(0..16) == 0 { x } else { y };          // equal operands
         let (sx, sy) = (x.to_slice(), y.to_slice());
         let opn = if k % 9 < 4 || k % 3 == 0 { "mul" } else { ["add", "sub", "mul", "mul"][rng.gen_range(0..4)] };
         let form = FORMS[rng.gen_range(0..6)];
